@@ -209,7 +209,10 @@ def run_case_e(case):
                 elif before[d].get(sub) != after[d].get(sub) or (a.disk_names[d].encode(), sub) not in unrec:
                     # left damaged without any report, or rewritten wrongly
                     mates_changed = any(k2 in user for k2 in inbad if k2 != k)
-                    if rf.rc == 0 or before[d].get(sub) != after[d].get(sub):
+                    # -b (not in the property's list of filters) visits only the bad blocks: a file with one repaired and one
+                    # unrecoverable block never reaches its last block, so it is counted and fails the exit status but is
+                    # not renamed - judged only for a silent outcome there
+                    if rf.rc == 0 or (fargs[0] == "-e" and before[d].get(sub) != after[d].get(sub)):
                         V.append(("fix-%s-leaves-selected-file-wrong%s" % (fargs[0], "/stripe-mate-modified" if mates_changed else ""),
                                   "%s: %s:%r still differs from the recorded version, rc=%s, not reported unrecoverable" %
                                   (label, a.disk_names[d], sub, rf.rc), rep))
@@ -561,7 +564,7 @@ def main(tier, seed, replay, jobs, scale):
         import json
         cases = [tuple(json.load(open(replay))["replay"]["case"])]
     else:
-        n = int((1200 if tier == "quick" else 4000) * scale)
+        n = int((1200 if tier == "quick" else 40000) * scale)
         cases = [(seed, i, tier) for i in range(n)]
         # fix -e / -b on bad-marked stripes whose files the user went on changing after the sync
         cases += [(seed, 100000 + i, tier) for i in range(max(4, n // 8))]
